@@ -69,7 +69,7 @@ TypingFails(e) ==
   \cup (IF e.twin.by = "case" /\ r.exc = "" /\ e.twin.res.exc = ""
         THEN Chk("C18:CaseInv", SameUpToCase(r, e.twin.res)) ELSE {})
   \cup (IF e.twin.by = "rc" /\ c.generic /\ r.exc = "" /\ e.twin.res.exc = ""
-        THEN IF nuc /\ TwoSites(w, c.enz)
+        THEN IF TwoSites(w, c.enz)          \* (ambiguity letters in the record are allowed: strands must still agree)
              THEN LET x == e.twin.res  k == c.enz.ovh IN
                   Chk("C12:StrandSym",
                       /\ x.valid = r.valid
